@@ -81,12 +81,36 @@ def gen(r, stack=None, profile='mixed', idx=0):
     evs.append({'at': r.randrange(0, t + 2), 'op': r.choice(['join', 'leave']), 'port': ep['port']})
   if r.random() < 0.08:
     evs.append({'at': r.randrange(0, t + 20), 'op': 'close'})
+  if r.random() < 0.25:
+    # a second, identically configured client in the same process; calls alternate between the two
+    spec['twin'] = True
+    for k, e in enumerate(evs):
+      if e['op'] == 'call' and k % 2 == 1 and not e.get('direct'):
+        e['client'] = 1
+  if r.random() < 0.25 and n_calls >= 2:
+    # sequential callers: a follow-up call issued the instant an earlier one completes
+    calls_ = [e for e in evs if e['op'] == 'call' and not e.get('direct')]
+    for k in range(r.choice([1, 2])):
+      if len(calls_) >= 2:
+        nxt = calls_.pop()
+        evs.remove(nxt)
+        head = r.choice(calls_)
+        while head.get('then'):
+          head = head['then']
+        head['then'] = nxt
   spec['events'] = sorted(evs, key=lambda e: e['at'])
   nf = {'mixed': r.choice([0, 0, 0, 1]), 'timeouts': 0, 'faults': r.choice([1, 1, 2, 3]), 'outage': r.choice([0, 1])}[profile]
   for _ in range(nf):
     spec['faults'].append({'op': r.choice(['send', 'recv', 'recv', 'connect']), 'nth': r.choice([1, 2, 3, 4, 6, 9]),
                            'what': r.choice(['exc', 'eof', 'refuse']), 'port': None})
-  last = max([e['at'] + (e.get('timeout') or timeout) for e in evs if e['op'] == 'call'] + [0])
+  def _end(e):
+    t_end = e['at'] + (e.get('timeout') or timeout)
+    n = e.get('then')
+    while n is not None:
+      t_end += (n.get('timeout') or timeout)
+      n = n.get('then')
+    return t_end
+  last = max([_end(e) for e in evs if e['op'] == 'call'] + [0])
   spec['horizon'] = last + r.choice([12, 40, 200])
   spec['open_limit'] = r.choice([64, 640])
   if profile == 'outage':
